@@ -746,6 +746,14 @@ func (w *World) Hook(tag string) dagsync.BlockHookFunc {
 		if cancelCaller != nil {
 			cancelCaller()
 		}
+		if fail && w.LibHook {
+			// the failure is the callback's error, signalled by the library's
+			// own hook for segmented sync
+			dagsync.MakeGeneralBlockHook(func(cid.Cid) (cid.Cid, error) {
+				return cid.Undef, errors.New("hook failure injected")
+			})(p, c, act)
+			return
+		}
 		if fail {
 			act.FailSync(errors.New("hook failure injected"))
 			if w.FailHookStop {
